@@ -1,4 +1,5 @@
 import LibInj.Proofs.BenignTop
+import LibInj.Proofs.DotKeys
 /-! # C14 — plain words and numbers are never reported as SQLi
 
 **Proved for every such input (`benign_not_sqli`, the word/number core of the property):** for every
@@ -157,11 +158,15 @@ dotted identifiers, `@` variables, single or repeated spaces, the punctuation ma
 theorem txt_not_sqli (input : Bytes) (h : Txt input) : isSQLi input = .ok (false, []) := isSQLi_txt input h
 
 /-- the sentence shape of the property: `w1, w2 w3.` — the comma is a token of its own class (the one fold rule it can
-trigger, `x , y` with both sides of the same benign class, only drops two tokens), the final `w3.` is one bareword -/
+trigger, `x , y` with both sides of the same benign class, only drops two tokens), the final `w3.` is one bareword (`w3`
+itself may be any non-keyword or bareword-class word) -/
 theorem sentence_not_sqli (w1 w2 w3 : Bytes) (h1 : Word w1) (k1 : NotKeywordLike w1) (h2 : Word w2) (k2 : NotKeywordLike w2)
-    (h3 : Word w3) (k3 : searchKeyword w3 = 0 ∨ searchKeyword w3 = 110) (k3' : NotKeywordLike (w3 ++ [46])) :
+    (h3 : Word w3) (k3 : searchKeyword w3 = 0 ∨ searchKeyword w3 = 110) :
     isSQLi (w1 ++ 44 :: 32 :: (w2 ++ 32 :: (w3 ++ [46]))) = .ok (false, []) := by
   apply isSQLi_txt
+  have k3' : NotKeywordLike (w3 ++ [46]) := by
+    obtain ⟨c, t, rfl, hc, ht⟩ := h3
+    exact word_dot_free (c :: t) (by simp [isWordByteB, hc, ht])
   have g1 : GoodWord w1 := ⟨h1, fun _ => k1.1, fun _ => k1.2⟩
   have g2 : GoodWord w2 := ⟨h2, fun _ => k2.1, fun _ => k2.2⟩
   have g3 : GoodDotted (w3 ++ [46]) := ⟨w3, [], rfl, h3, rfl, k3, fun _ => k3'.1, fun _ => k3'.2⟩
@@ -189,8 +194,11 @@ example : (match isSQLi (bs "hello, dear world.") with | .ok (false, []) => true
   decide +kernel
 example : (match isSQLi (bs "note to: self 42.") with | .ok (false, []) => true | _ => false) = true := by
   decide +kernel
-/-- `world.` is no key and starts no phrase is an instance-level hypothesis; on the instance `world` it is checked here for the key itself -/
-example : searchKeyword (bs "world") = 0 ∧ searchKeyword (bs "world.") = 0 := by decide +kernel
+/-- the last word needs no hypothesis about `w3.`: no key of the regenerated table ends in `.` and none contains `. `
+(`Proofs/DotKeys`, `keys_dot_facts`) -/
+theorem word_dot_not_keywordlike (w : Bytes) (h : Word w) : NotKeywordLike (w ++ [46]) := by
+  obtain ⟨c, t, rfl, hc, ht⟩ := h
+  exact word_dot_free (c :: t) (by simp [isWordByteB, hc, ht])
 
 /-- non-vacuity: the conclusion on `joe@example.com 42` is what the kernel computes -/
 example : (match isSQLi [106,111,101,64,101,120,97,109,112,108,101,46,99,111,109,32,52,50] with | .ok (false, []) => true | _ => false) = true := by
